@@ -62,6 +62,14 @@ pub const TEXT_CARRIERS: &[&str] = &[
     "from t | select {x = @§}",
     "from t | select {x = 1§}",
     "from t | select {x = $§}",
+    // errors located *inside* an interpolated string, behind the payload: with escape sequences before it (the text of
+    // the literal is longer than its value), in a triple-quoted literal, in a second hole
+    "from t | select {x = s\"\\n§{zz_unknown}\"}",
+    "from t | select {x = f\"\\t\\t§{a b}\"}",
+    "from t | select {x = s\"\"\"§{zz_unknown}\"\"\"}",
+    "from t | select {x = f\"\"\"§{a b}\"\"\"}",
+    "from [{a = 1}] | select f\"\\n\\n§{x}\"",
+    "from t | select {x = f\"{a}\\u{41}§{zz_unknown}\"}",
     "from_text format:json '[{\"a\": \"§\"}]'",
     "from_text format:json '[{\"§\": 1}]'",
     "from_text format:csv 'a,b\n§,1'",
